@@ -10,7 +10,7 @@ Local Open Scope nat_scope.
    character offsets [tb, te) of that slice *)
 Record tok := { ttype : nat; ttext : str; traw : str; tb : nat; te : nat }.
 
-Inductive lexres := LOk (ts : list tok) | LAssert | LIndex | LFuel.
+Inductive lexres := LOk (ts : list tok) | LAssert | LIndex | LFuel.   (* LAssert: Errors.Syntax for a character of no token domain; LIndex: not produced any more *)
 
 Section WithDef.
 Variable D : tokdef.
@@ -90,7 +90,7 @@ Definition quote_len (t : str) : nat :=
 Fixpoint index_str (x : str) (l : list str) (i : nat) : option nat :=
   match l with [] => None | y :: r => if str_eqb x y then Some i else index_str x r (S i) end.
 
-(* parse_symbol: (length, type, is the unary-minus special); None = IndexError (a final '-') *)
+(* parse_symbol: (length, type, is the unary-minus special) *)
 Definition symbol_tok (t : str) : option (nat * nat * bool) :=
   let try (n : nat) := if Nat.leb n (length t) then index_str (firstn n t) (combined_symbols D) 0 else None in
   match try 3 with
@@ -104,7 +104,7 @@ Definition symbol_tok (t : str) : option (nat * nat * bool) :=
               let ty := symbol_base + match index_of c (symbol D) with Some i => i | None => 0 end in
               if Nat.eqb ty T_Minus then
                 match r with
-                | [] => None
+                | [] => Some (1, ty, false)
                 | n :: _ => Some (1, ty, negb (mem n (white_space D)))
                 end
               else Some (1, ty, false)
